@@ -98,3 +98,33 @@ def register(reg: Registry) -> None:
             ]),
         },
         canaries=[f"{NEWOP}.offset == old(self._total_number_collected_ops)"], properties=["C07", "C03"])
+    register_enlarge(reg)
+
+
+def register_enlarge(reg: Registry) -> None:
+    """C03 "the routine info, coroutine-name and op tables have the same length, indexed by routine id"; C10/C03: a negative or an
+    already used routine id is rejected (the second routine would silently replace the first, /repo e280de3)."""
+    reg.fields({"SsbScriptCompilerListener.routine_infos": "list[Any]", "SsbScriptCompilerListener.routine_ops": "list[Any]",
+                "SsbScriptCompilerListener.named_coroutines": "list[Any]", "SsbScriptCompilerListener._active_routine_id": "int"})
+    T3 = "len(self.routine_infos) == len(self.routine_ops) and len(self.routine_ops) == len(self.named_coroutines)"
+    reg.contract(
+        L + ":SsbScriptCompilerListener._enlarge_routine_info", types={"self": "SsbScriptCompilerListener"},
+        requires=[T3,
+                  "self.routine_infos is not self.routine_ops and self.routine_infos is not self.named_coroutines and self.routine_ops is not self.named_coroutines"],
+        raises=[("SsbCompilerError", "self._active_routine_id < 0 or (self._active_routine_id < len(self.routine_infos) and not is_none(self.routine_infos[self._active_routine_id]))", True)],
+        ensures=[
+            T3,
+            # the three tables reach the active id, entries that were there are kept, new entries are empty
+            "len(self.routine_infos) == ite(old(len(self.routine_infos)) > self._active_routine_id, old(len(self.routine_infos)), self._active_routine_id + 1)",
+            "all_int(lambda j: implies(0 <= j and j < old(len(self.routine_infos)), self.routine_infos[j] is old(self.routine_infos[j]) and self.routine_ops[j] is old(self.routine_ops[j]) and self.named_coroutines[j] is old(self.named_coroutines[j])))",
+            "all_int(lambda j: implies(old(len(self.routine_infos)) <= j and j < len(self.routine_infos), is_none(self.routine_infos[j]) and fresh(self.routine_ops[j]) and len(typed(self.routine_ops[j], 'list[Any]')) == 0))",
+            "is_none(self.routine_infos[self._active_routine_id])",
+        ],
+        modifies=["list(self.routine_infos)", "list(self.routine_ops)", "list(self.named_coroutines)", "alloc"],
+        loops={0: dict(invariants=[
+            T3, "len(self.routine_infos) == at_loop_entry(len(self.routine_infos)) + it_i",
+            "all_int(lambda j: implies(0 <= j and j < at_loop_entry(len(self.routine_infos)), self.routine_infos[j] is at_loop_entry(self.routine_infos[j]) and self.routine_ops[j] is at_loop_entry(self.routine_ops[j]) and self.named_coroutines[j] is at_loop_entry(self.named_coroutines[j])))",
+            "all_int(lambda j: implies(at_loop_entry(len(self.routine_infos)) <= j and j < len(self.routine_infos), is_none(self.routine_infos[j]) and fresh(self.routine_ops[j]) and len(typed(self.routine_ops[j], 'list[Any]')) == 0))",
+        ])},
+        canaries=["len(self.routine_infos) == old(len(self.routine_infos))"],
+        properties=["C03", "C10"])
